@@ -468,13 +468,13 @@ func c09R3R4(a *A, cd *codec) {
 			return
 		}
 		cal := c.Common().StaticCallee()
-		if cal.Name() == "newBitmap" {
+		if roleName(cal) == "newBitmap" {
 			nullWidth(c, nil)
 			return
 		}
 		if cal.Pkg == w.Repl && cal.Blocks != nil && !c.Common().IsInvoke() && cal != rows {
 			instrs(cal, func(i2 ssa.Instruction) {
-				if c2, ok := i2.(*ssa.Call); ok && c2.Common().StaticCallee() != nil && c2.Common().StaticCallee().Name() == "newBitmap" {
+				if c2, ok := i2.(*ssa.Call); ok && c2.Common().StaticCallee() != nil && roleName(c2.Common().StaticCallee()) == "newBitmap" {
 					nullWidth(c2, c)
 				}
 			})
